@@ -289,11 +289,18 @@ def name_oracles(keys):
     return {"singUnder": [[k, v] for k, v in su.items()], "camelize": [[k, v] for k, v in cam.items()]}
 
 
-def run_pipeline_impl(inputs, registry, cmps, dict_fields=(), dict_regex=()):
-    """the library pipeline up to the layouts; returns the projections compared with the model"""
+def run_pipeline_impl(inputs, registry, cmps, dict_fields=(), dict_regex=(), first=None):
+    """the library pipeline up to the layouts; returns the projections compared with the model.
+    `first`: inputs registered and merged before `inputs` arrive (a registry merged twice)"""
     gen = MetadataGenerator(registry, dict_keys_regex=list(dict_regex), dict_keys_fields=list(dict_fields))
     reg = _TableRegistry(*cmps)
     out = {}
+    if first:
+        for name, samples in first:
+            reg.process_meta_data(gen.generate(*copy.deepcopy(samples)), name)
+        if closure_cost(reg) > 80:
+            raise TooCostly()
+        reg.merge_models(gen)
     for name, samples in inputs:
         meta = gen.generate(*copy.deepcopy(samples))
         reg.process_meta_data(meta, name)
@@ -369,9 +376,9 @@ def closure_cost(reg, limit=80):
     return worst
 
 
-def stage_pipeline(batch, inputs, registry, cmps, dict_fields=(), dict_regex=(), parts=None):
+def stage_pipeline(batch, inputs, registry, cmps, dict_fields=(), dict_regex=(), parts=None, first=None):
     values, keys = set(), set()
-    for _, samples in inputs:
+    for _, samples in list(inputs) + list(first or []):
         for s in samples:
             conv.walk_strings(s, values, keys)
     cfg = conv.gen_cfg(registry, dict_fields, dict_regex)
@@ -379,7 +386,7 @@ def stage_pipeline(batch, inputs, registry, cmps, dict_fields=(), dict_regex=(),
     orc.update(name_oracles(keys))
 
     def run():
-        return run_pipeline_impl(inputs, registry, cmps, dict_fields, dict_regex)[0]
+        return run_pipeline_impl(inputs, registry, cmps, dict_fields, dict_regex, first)[0]
 
     try:
         ans = impl_call(run)
@@ -390,7 +397,9 @@ def stage_pipeline(batch, inputs, registry, cmps, dict_fields=(), dict_regex=(),
         ans["ok"].pop("cost")
     req = {"op": "pipeline", "cfg": cfg, "orc": orc, "cmps": enc_cmps(cmps),
            "in": [[n, [conv.enc_json(s) for s in ss]] for n, ss in inputs]}
-    batch.add(req, ans, {"inputs": inputs, "project": "pipeline", "parts": parts, "cmps": enc_cmps(cmps)})
+    if first:
+        req["first"] = [[n, [conv.enc_json(s) for s in ss]] for n, ss in first]
+    batch.add(req, ans, {"inputs": inputs, "first": first, "project": "pipeline", "parts": parts, "cmps": enc_cmps(cmps)})
     return ans
 
 
